@@ -210,9 +210,8 @@ package parser
 //@   ensures[C03 C10] a-scanner-that-gives-up-has-recorded-why: !result ==> l.err != nil
 //@ func (*lexer).lit
 //@   ensures[C04 C15] literal-carries-the-marked-position: old(l.b) != "" ==> len(l.word) == old(len(l.word)) + 1 && l.word[len(l.word)-1] is *ast.Lit && l.word[len(l.word)-1].(*ast.Lit).ValuePos == old(l.pos) && l.word[len(l.word)-1].(*ast.Lit).Value == old(l.b) && l.b == ""
-//@   ensures[C04 C15] nothing-pending-nothing-added: old(l.b) == "" ==> l.word == old(l.word)
+//@   ensures[C04 C15] nothing-pending-nothing-added: old(l.b) == "" ==> l.word == old(l.word) && l.b == ""
 //@   ensures len(l.word) >= old(len(l.word))
-//@   ensures l.b == ""
 
 // ---- here-document hand-off counter (C01, C08) ----
 //
@@ -433,6 +432,8 @@ package parser
 //@   site NLSTORED = call strings.(*Builder).WriteByte
 //@   site FIRST = call parser.(*lexer).read#1
 //@   assert[C08] at call strings.(*Builder).WriteRune: body-character-copied-as-read: arg1 == siteret(FIRST)
+//@   loop "for" step[C08] a-character-of-a-quoted-body-is-stored: quoted && siteret(FIRST) != '\n' ==> len(l.b) > at(FIRST, len(l.b))
+//@   loop "for" step[C08] an-ordinary-character-of-the-body-is-stored: !quoted && siteret(FIRST) != '\n' && siteret(FIRST) != '\\' && siteret(FIRST) != '$' && siteret(FIRST) != '`' ==> len(l.b) > at(FIRST, len(l.b))
 //@   assert[C08] at call parser.(*lexer).mark#2: newline-of-the-body-is-kept: w1 != nil || site(NLSTORED)
 //@   assert[C08] at call parser.(*lexer).scanParamExp: body-expanded-only-if-unquoted: !quoted
 //@   assert[C08] at call parser.(*lexer).scanCmdSubst: body-expanded-only-if-unquoted: !quoted
